@@ -66,11 +66,15 @@ def run_case(case):
             cnt["rejected"] += 1
             continue
         duration = adapter.expected_duration(seq, mod)
-        dt = float(rng.choice([0.25, 0.5, 1, 3, 10, 33]))
+        dt = float(rng.choice([0.25, 0.3, 0.4, 0.5, 1, 1.7, 2.5, 3, 7.3, 10, 33]))
         if duration / dt > 1500:
             dt = 1.0
-        style = str(rng.choice(["ends", "lastns", "irrational", "rational"]))
-        times = adapter.rand_eval_times(rng, style, duration, dt)
+        style = str(rng.choice(["ends", "lastns", "last2ns", "irrational", "rational"]))
+        if style == "last2ns" and duration > 3:  # a step that STARTS before the last Pulser sample but whose midpoint lies after it
+            times = sorted({1.0, (duration - 1 - float(rng.uniform(0.02, 0.98))) / duration})
+        else:
+            style = "lastns" if style == "last2ns" else style
+            times = adapter.rand_eval_times(rng, style, duration, dt)
         nk = str(rng.choice(NOISES))
         nm = None
         if nk == "amplitude":
